@@ -10,7 +10,7 @@
 import math
 from collections.abc import KeysView, ValuesView, ItemsView, Iterator
 from types import MappingProxyType
-from typing import Optional, Union, Any
+from typing import Optional, Any
 
 import elementpath.aliases as ta
 
@@ -23,6 +23,29 @@ from elementpath.xpath_context import XPathSchemaContext
 from .functions import XPathFunction
 
 
+_TRUE_KEY, _FALSE_KEY = ('xs:boolean', True), ('xs:boolean', False)
+
+
+def dict_key(key: Any) -> Any:
+    """
+    The key under which an atomic value is stored in the dictionary of a map: NaN is
+    stored under None, and a boolean under a wrapper, because for Python True == 1 and
+    hash(True) == hash(1) while op:same-key never identifies a boolean with a number.
+    """
+    if isinstance(key, bool):
+        return _TRUE_KEY if key else _FALSE_KEY
+    elif isinstance(key, float) and math.isnan(key):
+        return None
+    return key
+
+
+def atomic_key(key: Any) -> Any:
+    """The atomic value stored under a dictionary key (inverse of dict_key)."""
+    if key is None:
+        return float('nan')
+    return key[1] if isinstance(key, tuple) else key
+
+
 class MapKeysView(KeysView[Optional[ta.AtomicType]]):
     _mapping: MappingProxyType[Optional[ta.AtomicType], ta.ValueType]
 
@@ -31,16 +54,11 @@ class MapKeysView(KeysView[Optional[ta.AtomicType]]):
     def __contains__(self, key: object) -> bool:
         if key is None:
             return False
-        elif isinstance(key, float) and math.isnan(key):
-            return None in self._mapping
-        return key in self._mapping
+        return dict_key(key) in self._mapping
 
     def __iter__(self) -> Iterator[ta.AtomicType]:
         for k in self._mapping:
-            if k is None:
-                yield float('nan')
-            else:
-                yield k
+            yield atomic_key(k)
 
 
 class MapsItemsView(ItemsView[Optional[ta.AtomicType], ta.ValueType]):
@@ -54,10 +72,7 @@ class MapsItemsView(ItemsView[Optional[ta.AtomicType], ta.ValueType]):
             return False
 
         try:
-            if isinstance(key, float) and math.isnan(key):
-                v = self._mapping[None]
-            else:
-                v = self._mapping[key]
+            v = self._mapping[dict_key(key)]
         except KeyError:
             return False
         else:
@@ -65,10 +80,7 @@ class MapsItemsView(ItemsView[Optional[ta.AtomicType], ta.ValueType]):
 
     def __iter__(self) -> Iterator[tuple[ta.AtomicType, ta.ValueType]]:
         for k in self._mapping:
-            if k is None:
-                yield float('nan'), self._mapping[k]
-            else:
-                yield k, self._mapping[k]
+            yield atomic_key(k), self._mapping[k]
 
 
 class XPathMap(XPathFunction):
@@ -83,7 +95,6 @@ class XPathMap(XPathFunction):
     pattern = r'(?<!\$)\bmap(?=\s*(?:\(\:.*\:\))?\s*\{(?!\:))'
     _map: Optional[ta.MapDictType] = None
     _values: list[ta.XPathTokenType]  # a 2nd list of tokens is needed for map's values
-    _nan_key: Union[bool, float] = False
 
     def __init__(self, parser: ta.XPathParserType, items: Optional[Any] = None) -> None:
         super().__init__(parser)
@@ -94,18 +105,10 @@ class XPathMap(XPathFunction):
             for k, v in _items:
                 if k is None:
                     raise self.error('XPTY0004', 'missing key value')
-                elif isinstance(k, float) and math.isnan(k):
-                    if self._nan_key is not False:
-                        raise self.error('XQDY0137')
-                    self._nan_key, _map[None] = k, v
-                    continue
-                elif k in _map:
+                dk = dict_key(k)
+                if dk in _map:
                     raise self.error('XQDY0137')
-
-                if isinstance(v, list):
-                    _map[k] = xlist(v)
-                else:
-                    _map[k] = v
+                _map[dk] = xlist(v) if isinstance(v, list) else v
 
             self._map = _map
 
@@ -172,27 +175,17 @@ class XPathMap(XPathFunction):
 
     def _evaluate(self, context: ta.ContextType = None) -> ta.MapDictType:
         _map: ta.MapDictType = {}
-        nan_key: Union[bool, float] = False
 
         for key, value in zip(self._items, self._values):
             k = key.get_atomized_operand(context)
             if k is None:
                 raise self.error('XPTY0004', 'missing key value')
-            elif isinstance(k, float) and math.isnan(k):
-                if nan_key is not False:
-                    raise self.error('XQDY0137')
-                nan_key, _map[None] = k, value.evaluate(context)
-                continue
-            elif k in _map:
+            dk = dict_key(k)
+            if dk in _map:
                 raise self.error('XQDY0137')
-
             v = value.evaluate(context)
-            if isinstance(v, list):
-                _map[k] = xlist(v)
-            else:
-                _map[k] = v
+            _map[dk] = xlist(v) if isinstance(v, list) else v
 
-        self._nan_key = nan_key
         return _map
 
     def __call__(self, *args: ta.FunctionArgType,
@@ -212,10 +205,7 @@ class XPathMap(XPathFunction):
             _map = self._evaluate(context)
 
         try:
-            if isinstance(key, float) and math.isnan(key):
-                return _map[None]
-            else:
-                return _map[key]
+            return _map[dict_key(key)]
         except KeyError:
             return []
 
